@@ -160,7 +160,7 @@ impl Prop for Histories {
         "histories"
     }
     fn rule() -> &'static str {
-        "bounded-exhaustive: every sequence of length <= L (quick 4, thorough 5; complete Reader and index-less reader: one more) over \
+        "bounded-exhaustive: every sequence of length <= L (quick 5, thorough 6; complete Reader and index-less reader: one more) over \
          {iterate j items (j=0,1,2,all), read_nth(i) i in 0..=n, seek(k) k in 0..=n, shape_count} on ShapeReader::with_shx; {iterate j \
          pairs, seek(k), shape_count} on the complete Reader (rows carry their index); {iterate j} on a reader without index; files with \
          n=3 (thorough also 4) records of pairwise different sizes and of equal sizes. Oracle: reference state machine (read_nth(i) -> \
@@ -342,7 +342,7 @@ impl Iterator for HistIter {
 impl EnumProp for Histories {
     fn enumerate(env: &Env) -> Box<dyn Iterator<Item = HistCase>> {
         let ns: Vec<u8> = if env.thorough() { vec![3, 4] } else { vec![3] };
-        let len = env.pickn(4, 5);
+        let len = env.pickn(5, 6);
         let mut blocks = Vec::new();
         for n in ns {
             let mut a0 = vec![Op::Iter(0), Op::Iter(1), Op::Iter(2), Op::Iter(255), Op::Count];
